@@ -212,16 +212,18 @@ def run(tier, seed, replay):
         with ThreadPoolExecutor(max_workers=1) as bg:
             fut = bg.submit(model_check, v, tier)
             # 2. behaviours
-            rows = []
-            if tier == "quick":
-                rows += cover_histories(v, "HttpSess_cover_quick.cfg", 2, False, seed, False, "cover.")
-            else:
-                rows += cover_histories(v, "HttpSess_cover.cfg", 3, False, seed, True, "cover.")
-            rows += cover_histories(v, "HttpSess_cover_stateless.cfg", 0, True, seed, True, "stateless.")
             nsim = 250 if tier == "quick" else 4000
-            rows += sim_histories(v, cfg_with("HttpSess_gen.cfg"), 3, False, nsim, 35, seed, "sim.")
-            rows += sim_histories(v, cfg_with("HttpSess_gen.cfg", T=0), 0, False, max(20, nsim // 10), 25, seed + 1, "sim0.")
-            rows += sim_histories(v, cfg_with("HttpSess_gen.cfg", T=2, MaxSess=2), 2, False, max(40, nsim // 4), 40, seed + 2, "sim2.")
+            gens = [
+                (lambda: cover_histories(v, "HttpSess_cover_quick.cfg", 2, False, seed, False, "cover.", 0.6))
+                if tier == "quick" else
+                (lambda: cover_histories(v, "HttpSess_cover.cfg", 3, False, seed, True, "cover.")),
+                lambda: cover_histories(v, "HttpSess_cover_stateless.cfg", 0, True, seed, True, "stateless."),
+                lambda: sim_histories(v, cfg_with("HttpSess_gen.cfg"), 3, False, nsim, 35, seed, "sim."),
+                lambda: sim_histories(v, cfg_with("HttpSess_gen.cfg", T=0), 0, False, max(20, nsim // 10), 25, seed + 1, "sim0."),
+                lambda: sim_histories(v, cfg_with("HttpSess_gen.cfg", T=2, MaxSess=2), 2, False, max(40, nsim // 4), 40, seed + 2, "sim2."),
+            ]
+            with ThreadPoolExecutor(max_workers=5) as ex:
+                rows = [r for part in ex.map(lambda g: g(), gens) for r in part]
             lap("generate")
             fut.result()
             lap("model_check_wait")
@@ -229,33 +231,47 @@ def run(tier, seed, replay):
     by_id = {r["id"]: r for r in rows}
     v.cov["histories"] = len(rows)
 
-    # 3. run on the real code
-    obs = os.path.join(out, "obs.ndjson")
-    if os.path.exists(obs):
-        os.remove(obs)
-    rc_go, gout, wall = vlib.go_test("mcp", "^TestVerif_C11$", HARNESS,
-                                     env={"VERIF_IN": hist_path, "VERIF_OUT": obs, "VERIF_SEED": seed}, timeout=1200)
-    vlib.go_must_build(rc_go, gout, PID)
+    # 3. run on the real code (sharded: every history is independent)
+    nshard = 1 if replay else (3 if tier == "quick" else 4)
+    shards = [rows[i::nshard] for i in range(nshard)]
+
+    def replay_shard(i):
+        hp, op = os.path.join(out, "histories.%d.ndjson" % i), os.path.join(out, "obs.%d.ndjson" % i)
+        vlib.write_ndjson(hp, shards[i])
+        if os.path.exists(op):
+            os.remove(op)
+        rc, gout, wall = vlib.go_test("mcp", "^TestVerif_C11$", HARNESS,
+                                      env={"VERIF_IN": hp, "VERIF_OUT": op, "VERIF_SEED": seed + 1000 * i}, timeout=1200)
+        vlib.go_must_build(rc, gout, PID)
+        got = vlib.read_ndjson(op) if os.path.exists(op) else []
+        os.remove(hp)
+        if os.path.exists(op):
+            os.remove(op)
+        return rc, gout, got
+
+    with ThreadPoolExecutor(max_workers=nshard) as ex:
+        results = list(ex.map(replay_shard, range(nshard)))
     lap("replay")
-    obs_rows = vlib.read_ndjson(obs) if os.path.exists(obs) else []
+    obs = os.path.join(out, "obs.ndjson")
+    obs_rows = []
+    for i, (rc_go, gout, got) in enumerate(results):
+        tr = vlib.split_traces(got)
+        if rc_go != 0:
+            # a panic / bubble deadlock inside SDK code while a history was replayed is real-code behaviour
+            lines = [l for l in gout.splitlines() if l.startswith("panic:") or "fatal error" in l or "deadlock" in l]
+            if not lines:
+                raise vlib.MachineryError("C11 harness failed:\n" + gout[-3000:])
+            done_ids = [t[0] for t in tr]
+            crashed = done_ids[-1] if done_ids else (shards[i][0]["id"] if shards[i] else "?")
+            h = by_id.get(crashed, {})
+            v.violation("NoPanic:%s" % re.sub(r"0x[0-9a-f]+|\d+", "N", lines[0])[:80],
+                        "the harness process died while replaying history %s: %s" % (crashed, lines[0]),
+                        {"timeout": h.get("timeout"), "stateless": h.get("stateless"), "ops": h.get("ops"), "output": gout[-2500:]})
+            tr = [t for t in tr if t[0] != crashed]  # judge the complete traces only
+            v.cov["histories_not_replayed"] = v.cov.get("histories_not_replayed", 0) + len(shards[i]) - len(tr)
+        obs_rows += [r for (_, _, trows) in tr for r in trows]
+    vlib.write_ndjson(obs, obs_rows)
     traces = vlib.split_traces(obs_rows)
-    crashed = None
-    if rc_go != 0:
-        # a panic / bubble deadlock inside SDK code while a history was replayed is real-code behaviour
-        done_ids = [t[0] for t in traces]
-        crashed = done_ids[-1] if done_ids else (rows[0]["id"] if rows else "?")
-        lines = [l for l in gout.splitlines() if l.startswith("panic:") or "fatal error" in l or "deadlock" in l]
-        if not lines:
-            raise vlib.MachineryError("C11 harness failed:\n" + gout[-3000:])
-        h = by_id.get(crashed, {})
-        v.violation("NoPanic:%s" % re.sub(r"0x[0-9a-f]+|\d+", "N", lines[0])[:80],
-                    "the harness process died while replaying history %s: %s" % (crashed, lines[0]),
-                    {"timeout": h.get("timeout"), "stateless": h.get("stateless"), "ops": h.get("ops"), "output": gout[-2500:]})
-        # judge the complete traces only
-        traces = [t for t in traces if t[0] != crashed]
-        obs_rows = [r for (_, _, tr) in traces for r in tr]
-        vlib.write_ndjson(obs, obs_rows)
-        traces = vlib.split_traces(obs_rows)
     nsteps = sum(1 for r in obs_rows if r.get("ev") == "step")
     v.cov["evaluations"] = nsteps
     v.cov["requests"] = sum(len(r.get("issued", [])) for r in obs_rows)
@@ -282,10 +298,76 @@ def run(tier, seed, replay):
     for tid, start, trows in traces[:2]:
         v.sample({"trace": tid, "steps": [brief(r) for r in trows[1:7]]})
 
-    # 4. monitor: the verdict
-    fails, mres = vlib.run_monitor("HttpSessMon", "HttpSessMon.cfg", obs, timeout=1800, heap_gb=8)
-    v.add_tlc("HttpSessMon", mres)
-    lap("monitor")
+    # 4. monitor (the verdict) and strict replay (binding / drift), sharded and run side by side
+    def monitor_shard(i):
+        part = [t for j, t in enumerate(traces) if j % nshard == i]
+        prow = [r for (_, _, trows) in part for r in trows]
+        if not prow:
+            return [], None
+        pp = os.path.join(out, "obs_mon.%d.ndjson" % i)
+        vlib.write_ndjson(pp, prow)
+        res = vlib.run_tlc("HttpSessMon", "HttpSessMon.cfg", workdir=wdir(), extra_files={"obs.ndjson": pp}, workers=1,
+                           timeout=1800, heap_gb=6)
+        os.remove(pp)
+        hwm = [p for p in res.printed if isinstance(p, dict) and "hwm" in p]
+        if res.error or hwm or res.violation or not res.ok:
+            raise vlib.MachineryError("monitor HttpSessMon did not consume the log (%s %s %s)\n%s"
+                                      % (res.error, hwm, res.violation, "\n".join(res.stdout.splitlines()[-30:])))
+        # map shard line numbers back to lines of obs.ndjson
+        lineno, n = {}, 0
+        for (tid, start, trows) in part:
+            for off in range(len(trows)):
+                n += 1
+                lineno[n] = start + off
+        return [{"monfail": p["monfail"], "line": lineno[p["line"]]} for p in res.printed
+                if isinstance(p, dict) and "monfail" in p], res
+
+    groups = {}
+    for tid, start, trows in traces:
+        if any(r.get("pre") for r in trows):
+            continue
+        groups.setdefault((trows[0]["timeout"], trows[0]["stateless"]), []).append((tid, trows))
+    gkeys = sorted(groups)
+
+    def strict_group(gi):
+        (T, stateless), cur = gkeys[gi], groups[gkeys[gi]]
+        cfg_txt = cfg_with("HttpSessTrace.cfg", T=T, Stateless="TRUE" if stateless else "FALSE")
+        okc, drifts, runs = 0, [], []
+        for attempt in range(6):
+            cur_rows = [r for (_, tr) in cur for r in tr]
+            if not cur_rows:
+                break
+            sp = os.path.join(out, "obs_strict.%d.ndjson" % gi)
+            vlib.write_ndjson(sp, cur_rows)
+            res = vlib.run_tlc("HttpSessTrace", "trace.cfg", workdir=wdir(), workers=1, timeout=1800, heap_gb=6,
+                               extra_files={"obs.ndjson": sp, "trace.cfg": cfg_txt})
+            os.remove(sp)
+            runs.append(("HttpSessTrace[T=%s,stateless=%s]" % (T, stateless), res))
+            hwm = [p for p in res.printed if isinstance(p, dict) and "hwm" in p]
+            if res.ok and not hwm:
+                okc += len(cur)
+                break
+            if not hwm:
+                raise vlib.MachineryError("strict HttpSessTrace failed to run: %s\n%s" % (res.error or res.violation, res.stdout[-2000:]))
+            line = hwm[0]["hwm"]
+            tr2 = vlib.split_traces(cur_rows)
+            tid, start, trows = vlib.trace_of_line(tr2, line)
+            drifts.append((tid, "trace %s step %d not explained by HttpSess: %s" % (tid, line - start, json.dumps(brief(cur_rows[line - 1]))[:300])))
+            idx = [i for i, (t2, _) in enumerate(cur) if t2 == tid][0]
+            okc += idx
+            cur = cur[idx + 1:]
+        return okc, drifts, runs
+
+    with ThreadPoolExecutor(max_workers=nshard + 2) as ex:
+        mon_f = [ex.submit(monitor_shard, i) for i in range(nshard)]
+        str_f = [ex.submit(strict_group, gi) for gi in range(len(gkeys))]
+        mon_r = [f.result() for f in mon_f]
+        str_r = [f.result() for f in str_f]
+    fails = sorted([f for (fl, _) in mon_r for f in fl], key=lambda f: f["line"])
+    for (_, mres) in mon_r:
+        if mres is not None:
+            v.add_tlc("HttpSessMon", mres)
+    lap("judge")
     bad_traces = set()
     for f in fails:
         tid, start, trows = vlib.trace_of_line(traces, f["line"])
@@ -311,39 +393,14 @@ def run(tier, seed, replay):
                     {"timeout": trows[0].get("timeout"), "stateless": trows[0].get("stateless"), "ops": ops[:cut],
                      "last_steps": [brief(r) for r in trows[max(1, upto - 5):upto + 1]]})
 
-    # 5. strict: every settled history must be a behaviour of HttpSess (binding / drift)
-    groups = {}
-    for tid, start, trows in traces:
-        if tid in bad_traces or any(r.get("pre") for r in trows):
-            continue
-        groups.setdefault((trows[0]["timeout"], trows[0]["stateless"]), []).append((tid, trows))
     strict_ok = 0
-    for (T, stateless), trs in sorted(groups.items()):
-        cfg_txt = cfg_with("HttpSessTrace.cfg", T=T, Stateless="TRUE" if stateless else "FALSE")
-        cur = trs
-        for attempt in range(6):
-            sp = os.path.join(out, "obs_strict.ndjson")
-            cur_rows = [r for (_, tr) in cur for r in tr]
-            if not cur_rows:
-                break
-            vlib.write_ndjson(sp, cur_rows)
-            res = vlib.run_tlc("HttpSessTrace", "trace.cfg", workdir=wdir(), workers=1, timeout=1800, heap_gb=8,
-                               extra_files={"obs.ndjson": sp, "trace.cfg": cfg_txt})
-            v.add_tlc("HttpSessTrace[T=%s,stateless=%s]" % (T, stateless), res)
-            hwm = [p for p in res.printed if isinstance(p, dict) and "hwm" in p]
-            if res.ok and not hwm:
-                strict_ok += len(cur)
-                break
-            if not hwm:
-                raise vlib.MachineryError("strict HttpSessTrace failed to run: %s\n%s" % (res.error or res.violation, res.stdout[-2000:]))
-            line = hwm[0]["hwm"]
-            tr2 = vlib.split_traces(cur_rows)
-            tid, start, trows = vlib.trace_of_line(tr2, line)
-            v.drift.append("trace %s step %d not explained by HttpSess: %s" % (tid, line - start, json.dumps(brief(cur_rows[line - 1]))[:300]))
-            idx = [i for i, (t2, _) in enumerate(cur) if t2 == tid][0]
-            strict_ok += idx
-            cur = cur[idx + 1:]
-    lap("strict")
+    for okc, drifts, runs in str_r:
+        strict_ok += okc
+        for name, res in runs:
+            v.add_tlc(name, res)
+        for tid, msg in drifts:
+            if tid not in bad_traces:  # a trace that violates the property is reported as such, not as drift
+                v.drift.append(msg)
     v.cov["traces_strictly_explained"] = strict_ok
     v.cov["exhaustive"] = False
     return v.finish()
